@@ -10,7 +10,8 @@ Tie:  G  `classify._cpu_binary` is translated (Gen/Kernels.lean: binary_cpu); th
 Oracles (written from the property statement, independent of the model): first bin >= v by linear scan,
 NaN for non-finite / above the last bin, every finite cell classified in [0, k-1], order preservation,
 equal-width intervals in exact rational arithmetic, percentile grid and bands, brute-force optimal
-partitions for natural_breaks (n <= 9).
+partitions for natural_breaks (n <= 9; the exact rational recurrence up to n = 40), within `opt_tol`: the bound on what a
+Jenks programme with float32 tables can resolve for the data at hand (offset-heavy data: offset / spread up to 1e4).
 Every classifier call gets its raster in a recorded memory layout (C-contiguous, Fortran, strided view, negative
 strides, a window of a larger array) and dtype class (float32 / float64 / signed / unsigned integers); the harness
 keeps a private copy taken before the call: the oracles judge the result against the *original* cell values, and
@@ -272,14 +273,62 @@ NARROW_INTS = ["int16", "uint8"]
 RASTER_LAYOUTS = ["C", "C", "C", "F", "strided", "neg", "window"]
 
 
+SPREADS = [5, 10, 30, 50, 100]
+RATIOS = [10, 30, 100, 100, 300, 1000, 10 ** 4]
+
+
+def gen_offset_values(rng, n, dtype, exact_squares=False):
+    """offset-heavy data: values large compared with their spread (elevations in m, pressures in Pa, temperatures in K):
+    offset / spread ratio 10 .. 1e4 with a spread of 5 .. 100, uniformly spread or on a few plateaus with noise.
+      integer dtypes   offset + 0..spread
+      float32/float64  offset + eighths (float32 numbers up to 2^21) or, float64 only, arbitrary doubles ("x": not float32 numbers)
+      exact_squares    integers m in [lo, lo+spread] below 4096 times a power of two 2^-6..2^4: the values *and their squares* are
+                       float32 numbers, so float32 tables hold every intermediate of the dynamic programme exactly up to
+                       the entries' own 24 bits (the exact model applies digit for digit)
+    -> (values, tag)"""
+    spread = rng.choice(SPREADS)
+    shape_ = rng.choice(["uniform", "uniform", "plateaus"])
+    if exact_squares:
+        lo = rng.randrange(max(1, 10 * spread), 4096 - spread)
+        g = 2.0 ** rng.choice([-6, -2, 0, 0, 0, 1, 4])
+        ratio = lo // spread
+        base = lambda: lo + rng.randrange(0, spread + 1)                          # noqa: E731
+        fin = lambda v: v * g                                                      # noqa: E731
+    else:
+        ratio = rng.choice(RATIOS)
+        off = spread * ratio + rng.randrange(0, spread)
+        if np.issubdtype(np.dtype(dtype), np.integer):
+            base, fin = (lambda: off + rng.randrange(0, spread + 1)), (lambda v: v)                 # noqa: E731
+        elif dtype == "float64" and rng.random() < 0.4:
+            base, fin = (lambda: off + rng.uniform(0, spread)), (lambda v: v)                      # noqa: E731
+        else:
+            base, fin = (lambda: off + rng.randrange(0, 8 * spread + 1) / 8), (lambda v: v)         # noqa: E731
+    if shape_ == "plateaus":
+        levels = [base() for _ in range(rng.randrange(2, 6))]
+        noise = rng.choice([0, 1, 2])
+        vals = [fin(rng.choice(levels) + (rng.randrange(-noise, noise + 1) if noise else 0)) for _ in range(n)]
+    else:
+        vals = [fin(base()) for _ in range(n)]
+    return vals, f"{'<=30' if ratio <= 30 else '<=300' if ratio <= 300 else '<=1000' if ratio <= 1000 else '>1000'}"
+
+
 def gen_raster(rng, kind=None, shape=None, dtype=None):
-    """small rasters on exactly computable lattices; ties, NaN/inf, values not representable in float32"""
+    """small rasters on exactly computable lattices; ties, NaN/inf, values not representable in float32; offset-heavy data"""
     h, w = shape or (rng.randrange(1, 5), rng.randrange(1, 6))
     n = h * w
-    kind = kind or rng.choice(["small", "small", "ties", "half", "wide", "f32x", "bigint"])
+    kind = kind or rng.choice(["small", "small", "ties", "half", "wide", "f32x", "bigint", "offset"])
     dtype = dtype or rng.choice(["float64", "float64", "float32", "int32", "int64"] * 2 + NARROW_INTS)
     if dtype in NARROW_INTS and kind not in ("small", "ties"):      # the narrow / unsigned types hold the small lattices only
         dtype = rng.choice(["int32", "int64"])
+    if kind == "offset":
+        vals, _ = gen_offset_values(rng, n, dtype)
+        a = np.array(vals, dtype=np.float64)
+        if np.issubdtype(np.dtype(dtype), np.integer):
+            a = np.floor(a)
+        a = a.astype(dtype).reshape(h, w)
+        if np.issubdtype(a.dtype, np.floating) and rng.random() < 0.4:
+            a[rng.randrange(h), rng.randrange(w)] = rng.choice([np.nan, np.inf, -np.inf])
+        return a, kind
     if kind == "small":
         vals = [rng.randrange(0, 12) for _ in range(n)]
     elif kind == "ties":
@@ -340,6 +389,7 @@ def raster_from(j):
 
 
 INPUT = {"changed": None}
+NOTES = {}
 
 
 def raster_pair(c):
@@ -764,6 +814,104 @@ def ssd(xs):
     return sum(x * x for x in xs) - s * s / len(xs)
 
 
+U32, U64 = Fraction(1, 2 ** 24), Fraction(1, 2 ** 53)
+
+
+def f32q(x):
+    """np.float32 of a rational, as a rational"""
+    return Fraction(float(np.float32(float(x))))
+
+
+def opt_tol(xs, k, best):
+    """how far above the minimum the within-class SSD of the partition may be that a Jenks dynamic programme with *float32
+    tables* returns for the sorted sample xs (exact rationals) -- derived from what the source computes, term by term:
+      * every value enters as x~ = float32(x) and its square as float32(x~ * x~) (a float32 product), summed in float64: the
+        cost of a class is its SSD on x~ plus the sum of its members' square errors e_i = float32(x~_i^2) - x~_i^2, so every
+        partition of the first l values is shifted by the same E_l = e_1 + ... + e_l (|E_l| <= l * 2^-24 * max|x|^2 =: Esq) and the
+        argmin is not affected -- except that the table row of the one-element prefix is the constant 0 instead of e_1:
+        partitions whose first class is {x_1} are favoured / penalised by exactly e_1                     -> |e_1|
+      * each table entry is stored as float32: relative error 2^-24 of an entry of size <= best + Esq, once per class on the
+        chosen and on the optimal path ((1+u)^(2k) - 1 <= 4k u)                                          -> 4k * 2^-24 * (best + Ecast + Esq)
+      * the float64 evaluation of sum(x^2) - sum(x)^2 / w: <= 2 (n+3) n 2^-53 max|x|^2 per class, both paths -> 8k (n+3) n 2^-53 max|x|^2
+      * values that are not float32 numbers are classified by their float32 images: with d = max |x~_i - x_i| and R = max - min
+        the SSD of any partition moves by at most 4n(R d + d^2), for the chosen and the optimal one         -> Ecast = 8n(R d + d^2)
+    For float32-exact data with exact float32 squares (integers below 4096, small lattices) this is about 1e-6 * best; for
+    elevations 2000..5000 it is at most 2^-24 * x_1^2 <= 1.5 (mostly ~0.3) against SSDs of hundreds; `dp_tol` (1e-6 max|x|^2, the
+    resolution assumed before this derivation) is 17 times the largest possible |e_1|."""
+    e1, ecast, table = tol_terms(xs, k, best)
+    return e1 + ecast + table
+
+
+def tol_terms(xs, k, best):
+    """(|e_1|, Ecast, table rounding = float32 storage + float64 evaluation) of `opt_tol`"""
+    n = len(xs)
+    m = max(abs(x) for x in xs)
+    rng_ = max(xs) - min(xs)
+    d = max(abs(f32q(x) - x) for x in xs)
+    ecast = 8 * n * (rng_ * d + d * d)
+    esq = n * U32 * m * m
+    x1 = f32q(xs[0])
+    with np.errstate(over="ignore"):
+        sq = float(np.float32(float(x1)) * np.float32(float(x1)))
+    e1 = abs(Fraction(sq) - x1 * x1) if math.isfinite(sq) else m * m
+    return e1, ecast, 4 * k * U32 * (best + ecast + esq) + 8 * k * (n + 3) * n * U64 * m * m
+
+
+def resolvable(xs, k, best):
+    """can a programme with float32 tables tell a k-class partition of this sample from a degenerate one at all?
+    The tables' row of the one-element prefix is 0 in *every* column, i.e. {x_1} also counts as two, three ... classes at no
+    cost; such a path has fewer real classes (its break extraction then reads data[-1], data[-2]: the classes it induces can be
+    as bad as one class for everything) and is taken -- ties go to it -- as soon as the (k-1)-th class of x_2..x_n buys nothing
+    the tables can see: when the float32 images have fewer than k distinct values (integers above 2^24 collapse in pairs:
+    natural_breaks([[16777273, 16777259], [16777217, 16777271]], k=4) puts all four cells into class 0), or when
+    best_{k-2}(x~_2..x~_n) - best_{k-1}(x~_2..x~_n) is below the tables' rounding.  For samples that are float32 numbers with at
+    least k distinct values (every stream but `bigint` / `f32x` / non-float32 doubles) this is always true."""
+    xt = sorted(f32q(x) for x in xs)
+    if len(set(xt)) < k:
+        return False
+    if k >= 3 and len(xt) - 1 >= k - 1:
+        gain = optimum(xt[1:], k - 2) - optimum(xt[1:], k - 1)
+        if gain <= tol_terms(xs, k, best)[2]:
+            return False
+    return True
+
+
+def exact_dp_min(xs, k):
+    """minimum within-class SSD over all partitions of sorted xs into k non-empty contiguous classes, by the recurrence
+    best(c, j) = min_i best(c-1, i) + SSD(xs[i:j]) in exact rational arithmetic (reference for samples too long for
+    `brute_force_min`; the two are compared on every sample with n <= 7)"""
+    n = len(xs)
+    pre, pre2 = [Fraction(0)], [Fraction(0)]
+    for x in xs:
+        pre.append(pre[-1] + x)
+        pre2.append(pre2[-1] + x * x)
+
+    def cost(i, j):
+        t = pre[j] - pre[i]
+        return pre2[j] - pre2[i] - t * t / (j - i)
+
+    prev = [Fraction(0)] + [None] * n
+    for c in range(1, k + 1):
+        cur = [None] * (n + 1)
+        for j in range(c, n + 1):
+            cur[j] = min(prev[i] + cost(i, j) for i in range(c - 1, j) if prev[i] is not None)
+        prev = cur
+    return prev[n]
+
+
+def optimum(xs, k):
+    """the reference optimum: brute force over all partitions for n <= 9, the exact recurrence above that (None: none exists)"""
+    n = len(xs)
+    if k > n:
+        return None
+    if n <= 9:
+        best = brute_force_min(xs, k)
+        if n <= 7 and best != exact_dp_min(xs, k):
+            raise AssertionError(f"exact_dp_min disagrees with brute_force_min on {xs}, k={k}")
+        return best
+    return exact_dp_min(xs, k)
+
+
 def brute_force_min(xs, k):
     """minimum within-class SSD over all partitions of sorted xs into k non-empty contiguous classes"""
     n = len(xs)
@@ -778,8 +926,10 @@ def brute_force_min(xs, k):
 
 def gen_jenks(rng, nmax):
     n = rng.randrange(2, nmax + 1)
-    kind = rng.choice(["small", "ties", "half", "wide", "gaps"])
-    if kind == "small":
+    kind = rng.choice(["small", "ties", "half", "wide", "gaps", "offset", "offset"])
+    if kind == "offset":
+        xs, _ = gen_offset_values(rng, n, "float64", exact_squares=True)
+    elif kind == "small":
         xs = [rng.randrange(0, 12) for _ in range(n)]
     elif kind == "ties":
         xs = [rng.choice([0, 1, 1, 2, 5, 5, 9]) for _ in range(n)]
@@ -831,12 +981,14 @@ def check_jenks(r, c, rep_mat, rep_brk):
                 return
             groups.setdefault(i, []).append(x)
         cost = sum(ssd(g) for g in groups.values())
-        best = brute_force_min(X, k) if n <= 9 else min(MV[n][k - 1], cost)
-        if cost > best + dp_tol(X):
+        best = optimum(X, k)
+        if not resolvable(X, k, best):
+            r.tag("jenks:not-resolvable-in-float32-tables")
+        elif cost > best + opt_tol(X, k, best):
             r.fail("jenks:not-optimal", f"_run_jenks({[float(x) for x in X]}, {k}) = {kc}: within-class SSD {float(cost)}, "
                    f"the optimal partition has {float(best)}", c)
             return
-        if n <= 9 and MV[n][k - 1] != best:      # exact: the model's table entry is the brute-force minimum
+        if MV[n][k - 1] != best:      # exact: the model's table entry is the brute-force (n > 9: exact-recurrence) minimum
             r.disagree("jenks_optimal", c, f"brute force {best}", f"model V[n][k] {MV[n][k - 1]}")
             return
         if rep_brk.startswith("err"):
@@ -858,8 +1010,15 @@ def gen_natural(rng, target=None):
     """every dtype class x every way of sampling: `num_sample` None / = size / > size (the whole raster is the sample),
     < size (a sub-sample); the cells are in no particular order (an already ascending raster hides a classifier that
     reorders its input)"""
-    kind = target or rng.choice(["small", "ties", "half", "wide", "f32x", "bigint", "sampled", "fallback-sampled"])
+    kind = target or rng.choice(["small", "ties", "half", "wide", "f32x", "bigint", "sampled", "fallback-sampled", "offset", "offset", "offset"])
     shape = (rng.randrange(1, 4), rng.randrange(2, 5))
+    if kind == "offset":
+        # offset-heavy rasters (float32 / float64 / integer), up to 4x6: the reference optimum is the exact recurrence above 9 cells
+        shape = (rng.randrange(1, 5), rng.randrange(2, 7))
+        a, _ = gen_raster(rng, kind="offset", shape=shape, dtype=rng.choice(["float64", "float64", "float32", "int32", "int64"]))
+        ns = rng.choice([None, None, None, a.size, a.size + 5])
+        k = rng.randrange(2, 6)
+        return with_layout(rng, dict(kind="natural_breaks", raster=raster_json(a), k=k, num_sample=ns, gen=kind))
     if kind in ("sampled", "fallback-sampled"):
         a, _ = gen_raster(rng, kind="ties" if kind == "fallback-sampled" else "small", shape=shape,
                           dtype=rng.choice(["float64", "float32", "int32", "int64"] + NARROW_INTS))
@@ -910,14 +1069,16 @@ def oracle_natural(c, a, st, out):
     if mv:
         return f"{branch}:order", f"natural_breaks: {mv}"
     sampled = c["num_sample"] is not None and c["num_sample"] < a.size
-    if branch == "jenks" and not sampled and len(fin) <= 9:
+    if branch == "jenks" and not sampled and len(fin) <= 40:
         groups = {}
         for v, o in zip(flat, res):
             if isfin(v):
                 groups.setdefault(int(o), []).append(fr(v))
         cost = sum(ssd(g) for g in groups.values())
-        best = brute_force_min(fin, k)
-        if cost > best + dp_tol(fin):
+        best = optimum(fin, k)
+        if not resolvable(fin, k, best):
+            NOTES["unresolvable"] = NOTES.get("unresolvable", 0) + 1
+        elif cost > best + opt_tol(fin, k, best):
             return "jenks:not-optimal", (f"natural_breaks k={k}: classes {res} of {flat} have within-class SSD {float(cost)}, "
                                          f"the optimal partition has {float(best)}")
     return None
@@ -1036,6 +1197,8 @@ def eval_case_(r, c, drv_reply=None, stream=None):
     if kind == "natural_breaks":
         a, st, out = run_natural(c)
         bad = oracle_natural(c, a, st, out)
+        if NOTES.pop("unresolvable", 0):
+            r.tag("natural_breaks:not-resolvable-in-float32-tables")
         if bad:
             key, what = fail_key("natural_breaks", bad)
             r.fail(key, what, c)
@@ -1175,7 +1338,12 @@ def run(r, scale=1):
               "particular order, a private copy taken before the call (oracles judge against it; a raster that differs from it "
               "after the call is the failing input), natural_breaks with num_sample None / >= size / < size, values not "
               "representable in float32 (0.1, 1/3, 2^24+1, ...), numpy and dask backends, k in 1..12 (+23/29/31/36 for "
-              "quantile), sampled natural_breaks; precision edges (reclassify, _cpu_bin): float32 / float64 / int32 / int64 "
+              "quantile), sampled natural_breaks; offset-heavy data (quantile, natural_breaks, Jenks tables): offset / spread ratio 10..1e4 "
+              "with a spread of 5..100, uniform or plateaus + noise, float32 / float64 (eighths, or doubles that are not float32 numbers) / "
+              "int32 / int64, rasters up to 4x6 -- optimality against brute force (n <= 9) or the exact rational recurrence (n <= 40) within "
+              "opt_tol = what float32 tables resolve for that data (|e_1| + 4k 2^-24 (best + ...) + ...); the Jenks-table stream draws "
+              "offset data whose squares are float32 numbers (integers below 4096 times 2^-6..2^4), where the exact model applies digit "
+              "for digit; precision edges (reclassify, _cpu_bin): float32 / float64 / int32 / int64 "
               "cells with float64 bounds on, one ulp of either precision beside, and half way between the cells "
               "(decimals, thirds, integers beyond 2^24, subnormals, 1e38), through _run_numpy_bin's casts; "
               "il:cpuBin: the generated ILang program of _cpu_bin vs numba, fuel = nbins + 1 (ascending / tied / unsorted / "
@@ -1214,7 +1382,7 @@ def search(r):
     rng = r.rng
     r.tier_backup = r.tier
     targeted = []
-    targeted += [gen_natural(rng, t) for t in ("f32x", "bigint", "fallback-sampled", "sampled") for _ in range(150)]
+    targeted += [gen_natural(rng, t) for t in ("f32x", "bigint", "fallback-sampled", "sampled", "offset", "offset") for _ in range(150)]
     targeted += [gen_quantile(rng, k) for k in QUANTILE_KS for _ in range(6)]
     targeted += [gen_reclass(rng, edges=True) for _ in range(400)]
     targeted += [gen_equal_interval(rng) for _ in range(300)] + [gen_reclass(rng, edges=False) for _ in range(400)]
